@@ -416,6 +416,12 @@ def _r3(ctx, pkg):
             ctx.unrec("R3", "first", WF, f"the list of first occurrences is not a selection from the first-seen table: {show(c)[:120] if c else 'no 3-tuple returned'}")
         return
     fields = record_fields(st.value, class_of)
+    # a namedtuple row that normalisation already wrote as the tuple of its values (normalize.namedtuple_rows) keeps its field names
+    nt = getattr(getattr(st.node, "value", None), "_nt_fields", None)
+    if fields is not None and nt:
+        for i_, f_ in enumerate(nt):
+            if ("sub", i_) in fields:
+                fields.setdefault(("attr", f_), fields[("sub", i_)])
     if fields is None:
         ctx.unrec("R3", "stored list non-empty", (NF, st.line), f"the entry created for a new key is not a display / record constructor this rule reads: {show(simp(st.value))[:80]}")
         return
